@@ -238,14 +238,14 @@ Lemma ustar_typeflag_byte : forall e tt t, ustar_typeflag e tt = Some t ->
   nth R_tar_typeflag_offset (snd (ustar_header e tt true)) 0%Z = t.
 Proof.
   intros e tt t Ht.
-  assert (Hs : slice USTAR_typeflag_offset 1 (snd (ustar_header e tt true)) = [t]).
-  { change 1 with (length [t]).
-    apply (ustar_field_slice e tt USTAR_typeflag_offset [t]
+  assert (Hs : slice USTAR_typeflag_offset (length [t]) (snd (ustar_header e tt true)) = [t]).
+  { apply (ustar_field_slice e tt USTAR_typeflag_offset [t]
              (u_strs e ++ [u_mode e; u_uid e; u_gid e; u_size e; u_mtime e]
               ++ wr_if (is_dev e) USTAR_rdevmajor_offset (u_maj e) ++ wr_if (is_dev e) USTAR_rdevminor_offset (u_min e)) []).
     - rewrite ustar_fields_shape. unfold u_tail, u_tf. rewrite Ht. repeat rewrite <- app_assoc. reflexivity.
     - constructor.
     - cbn [length]. unfold USTAR_typeflag_offset, USTAR_checksum_offset. lia. }
+  cbn [length] in Hs.
   rewrite nth_slice1 in Hs by (rewrite ustar_header_length; unfold USTAR_typeflag_offset; lia).
   inversion Hs. reflexivity.
 Qed.
